@@ -10,6 +10,7 @@ import (
 
 	"github.com/andydunstall/yamux"
 
+	"github.com/andydunstall/piko/server/cluster"
 	"github.com/andydunstall/piko/server/upstream"
 	v "github.com/andydunstall/piko/zzverif"
 )
@@ -52,6 +53,19 @@ func Harness_C08_transparent() {
 	if upgrade != "" {
 		h.Set("Upgrade", upgrade)
 	}
+	// the client's Connection header: absent, one line, several options on one
+	// line, options spread over several header lines, and a line that also
+	// names one of piko's control headers
+	connLines := [][]string{nil, {"Upgrade"}, {"keep-alive, Upgrade"}, {"keep-alive", "Upgrade"}, {"x-piko-endpoint, Upgrade"}, {"close"}}[v.Choose("connection", 6)]
+	var connTokens []string
+	for _, l := range connLines {
+		h.Add("Connection", l)
+		for _, t := range strings.Split(l, ",") {
+			if t = strings.TrimSpace(t); t != "" && !strings.EqualFold(t, "x-piko-endpoint") && !strings.EqualFold(t, "x-piko-forward") {
+				connTokens = append(connTokens, t)
+			}
+		}
+	}
 	hostIdx := v.Choose("host", 3)
 	addressed := v.Choose("endpoint-header", 2) == 1
 	if addressed {
@@ -87,10 +101,37 @@ func Harness_C08_transparent() {
 	v.Assert("C08/host-unchanged", in.Host == vHosts[hostIdx].host)
 	v.Assert("C08/body-unchanged", in.Body == body)
 	v.Assert("C08/headers-kept", in.Header.Get("User-Agent") == ua && in.Header.Get("X-Custom") == custom && in.Header.Get("Upgrade") == upgrade)
-	v.Assert("C08/only-forward-marker-added", len(in.Header) == nHeadersBefore+1 && in.Header.Get("x-piko-forward") == "true")
+	// besides the forward marker piko adds nothing and removes nothing; of the
+	// Connection header only the names of its own control headers may go
+	want := nHeadersBefore + 1
+	if len(connLines) > 0 && len(connTokens) == 0 {
+		want--
+	}
+	v.Assert("C08/only-forward-marker-added", len(in.Header) == want && in.Header.Get("x-piko-forward") == "true")
+	var gotTokens []string
+	for _, l := range in.Header["Connection"] {
+		for _, t := range strings.Split(l, ",") {
+			if t = strings.TrimSpace(t); t != "" {
+				gotTokens = append(gotTokens, t)
+			}
+		}
+	}
+	v.Assert("C08/connection-options-kept", len(gotTokens) == len(connTokens))
+	for i := range gotTokens {
+		if i < len(connTokens) {
+			v.Assert("C08/connection-options-kept", gotTokens[i] == connTokens[i])
+		}
+	}
 	// Director: only scheme and host of the outbound URL
 	v.Assert("C08/director-scheme-host", out.URL.Scheme == "http" && out.URL.Host == "e0")
-	v.Assert("C08/director-keeps-rest", out.URL.Path == path && out.URL.RawQuery == rawq && out.Method == method && out.Host == vHosts[hostIdx].host)
+	v.Assert("C08/director-keeps-rest", out.URL.Path == path && out.URL.RawPath == r.URL.RawPath && out.URL.RawQuery == rawq && out.Method == method && out.Host == vHosts[hostIdx].host)
+	v.Assert("C08/director-keeps-rest", out.URL.Opaque == "" && out.URL.User == nil && !out.URL.ForceQuery && out.URL.Fragment == "" && out.Body == body)
+	// a protocol upgrade the client asked for reaches the upstream as one
+	if upgrade != "" && vConnectionHasToken(h, "upgrade") {
+		v.Assert("C08/upgrade-reaches-upstream", out.Header.Get("Upgrade") == upgrade && vConnectionHasToken(out.Header, "upgrade"))
+		v.Cover("upgrade-forwarded")
+	}
+	v.Assert("C08/end-to-end-headers-reach-upstream", out.Header.Get("User-Agent") == ua && out.Header.Get("X-Custom") == custom)
 	// timeout attached iff configured and not a websocket upgrade, with the configured duration
 	d, hasTimeout := v.CtxTimeout(in.Context())
 	if upgrade == "websocket" {
@@ -128,4 +169,92 @@ func Harness_C08_transparent() {
 		v.Cover("502-upstream-error")
 	}
 	v.Assert("C08/no-response-rewriting", n.srv.httpProxy.proxy.ModifyResponse == nil && n.srv.httpProxy.proxy.Rewrite == nil)
+}
+
+// Harness_C08_forwarded: the request enters a node without a local upstream
+// and is served through the node that has one. The first node applies the
+// configured timeout to the hop exactly like to a local upstream (so an
+// answer that never comes is a 504, not a hang), the second node receives the
+// request unchanged apart from the forward marker, and failures on either
+// node map to 502/504.
+func Harness_C08_forwarded() {
+	timeout := time.Duration(v.I64("timeout"))
+	v.Assume(timeout >= 0)
+	vResetWorld()
+	v.Tag("hop")
+	a := vNewNodeW(0, timeout)
+	b := vNewNodeW(1, timeout)
+	sess := b.addUpstream("e0")
+	upstream.VerifOpenOutcome[sess] = v.Choose("dial-outcome", 3)
+	a.cs.AddNode(&cluster.Node{ID: b.id, ProxyAddr: b.addr, AdminAddr: "admin", Status: cluster.NodeStatusActive, Endpoints: map[string]int{"e0": 1}})
+	b.cs.AddNode(&cluster.Node{ID: a.id, ProxyAddr: a.addr, AdminAddr: "admin", Status: cluster.NodeStatusActive, Endpoints: map[string]int{}})
+	hopFails := v.Choose("hop-dial-fails", 2) == 1
+	if hopFails {
+		upstream.VerifHopDialFail[b.addr] = true
+	}
+	vRoundTrip = 0
+
+	method := []string{"GET", "POST"}[v.Choose("method", 2)]
+	path := v.Str("path")
+	v.Assume(!strings.HasPrefix(path, "/_piko"))
+	rawq := v.Str("query")
+	h := http.Header{}
+	custom := v.Str("x-custom")
+	h.Set("X-Custom", custom)
+	upgrade := []string{"", "websocket"}[v.Choose("upgrade", 2)]
+	if upgrade != "" {
+		h.Set("Upgrade", upgrade)
+		h.Set("Connection", "Upgrade")
+	}
+	byHeader := v.Choose("endpoint-header", 2) == 1
+	host := "e0.piko.example.com"
+	if byHeader {
+		h.Set("x-piko-endpoint", "e0")
+		host = "example.com"
+	}
+	body := &vBody{}
+	r := &http.Request{Method: method, URL: &url.URL{Path: path, RawPath: v.Str("rawpath"), RawQuery: rawq}, Host: host, Header: h, Body: body}
+
+	a.vDispatch(r)
+	status := vStatuses[len(vStatuses)-1]
+	upstream.VerifHopDialFail[b.addr] = false
+
+	v.Assert("C08/forwarded/first-node-proxies-once", len(vCaptured) >= 1)
+	hop := vCaptured[0]
+	// the hop carries the configured timeout (not for websocket upgrades)
+	d, hasTimeout := v.CtxTimeout(hop.in.Context())
+	if upgrade == "websocket" {
+		v.Assert("C08/forwarded/no-timeout-on-websocket", !hasTimeout)
+	} else {
+		v.Assert("C08/forwarded/timeout-iff-configured", hasTimeout == (timeout != 0))
+		if hasTimeout {
+			v.Assert("C08/forwarded/timeout-value", d == timeout)
+			v.Cover("hop-timeout-attached")
+		}
+	}
+	v.Assert("C08/forwarded/hop-targets-the-other-node", len(upstream.VerifHopDials) == 1 && upstream.VerifHopDials[0] == b.addr)
+	if hopFails {
+		v.Assert("C08/forwarded/unreachable-node-502", status == http.StatusBadGateway && len(vCaptured) == 1)
+		v.Cover("hop-dial-failed")
+		return
+	}
+	// the second node received the same request plus the marker and proxied it
+	// to its upstream
+	v.Assert("C08/forwarded/second-node-proxies-once", len(vCaptured) == 2 && vHops == 1)
+	in2, out2 := vCaptured[1].in, vCaptured[1].out
+	v.Assert("C08/forwarded/method-path-query-host-unchanged", in2.Method == method && in2.URL.Path == path && in2.URL.RawPath == r.URL.RawPath && in2.URL.RawQuery == rawq && in2.Host == host)
+	v.Assert("C08/forwarded/body-unchanged", in2.Body == body)
+	v.Assert("C08/forwarded/headers-unchanged", in2.Header.Get("X-Custom") == custom && in2.Header.Get("Upgrade") == upgrade && in2.Header.Get("x-piko-forward") == "true")
+	if byHeader {
+		v.Assert("C08/forwarded/endpoint-header-kept", in2.Header.Get("x-piko-endpoint") == "e0")
+	}
+	v.Assert("C08/forwarded/upstream-sees-request-unchanged", out2.Method == method && out2.URL.Path == path && out2.URL.RawPath == r.URL.RawPath && out2.URL.RawQuery == rawq && out2.Host == host && out2.Header.Get("X-Custom") == custom && out2.Header.Get("Upgrade") == upgrade)
+	switch upstream.VerifOpenOutcome[sess] {
+	case 0:
+		v.Assert("C08/forwarded/success-relayed", status == http.StatusOK)
+		v.Cover("forwarded-200")
+	default:
+		v.Assert("C08/forwarded/upstream-failure-502", status == http.StatusBadGateway)
+		v.Cover("forwarded-502")
+	}
 }
